@@ -437,7 +437,8 @@ def unit_deals(ctx):
         numbers = list(range(1, 17))
     pairs = PAIRS[P["chunk"]::P["nchunks"]]
     kinds_all = ("zero", "ones", "random")
-    tapekinds = ("random", "random", "zero", "ones", "brng", "random", "top")
+    # low / word / block: blinding polynomials of small degree (1, below 64, below l): the product with m0 then stays short
+    tapekinds = ("random", "random", "zero", "ones", "brng", "random", "top", "low", "word", "block")
     fn = {"share-std": "belsShare", "share-gen": "belsShare", "share2": "belsShare2", "share3": "belsShare3"}[api]
     for pi, (count, t) in enumerate(pairs):
         # all three secrets on the exhaustively enumerated part, rotating above it
@@ -460,6 +461,9 @@ def unit_deals(ctx):
                 tape_bytes = b"\xff" * need
             elif tk == "top":
                 tape_bytes = bytes(max(0, need - 1)) + (b"\x80" if need else b"")
+            elif tk in ("low", "word", "block"):
+                head = {"low": bytes([rng.choice([1, 2, 3, 0x21])]), "word": rng.randbytes(8), "block": rng.randbytes(ln)}[tk]
+                tape_bytes = (head + bytes(need))[:need]
             else:
                 tape_bytes = rng.randbytes(need)
             junk = rng.randbytes(8)
